@@ -113,6 +113,7 @@ type caseRun struct {
 	restarts int
 	// bookkeeping for the non-triviality rule
 	lastDrained       bool
+	valueless         bool // some value-less update carried a type other than "deleted"
 	restartWithLive   bool
 	pendingResync     bool
 	convergedAfterRst bool
@@ -177,6 +178,10 @@ func (c *caseRun) updates(us []upd) {
 		} else {
 			cs = append(cs, fmt.Sprintf("DL %d %s", u.k, utName[u.t]))
 			hs = append(hs, fmt.Sprintf("del k%d", u.k))
+			if u.t != api.UpdateTypeKVDeleted {
+				c.valueless = true
+				hs[len(hs)-1] = fmt.Sprintf("k%d=nil(%s)", u.k, utName[u.t])
+			}
 		}
 		gus = append(gus, g)
 	}
@@ -192,6 +197,14 @@ func (c *caseRun) pull(n int) {
 func (c *caseRun) drain() {
 	_ = c.d.VerifDrain(c.s)
 	c.finishOp("OpPull 100%nat", "drain")
+}
+
+// type carried by a value-less update: usually "deleted", but Typha forwards validation failures (nil value) with
+// their original type, so new/updated/unknown occur as well.  The buffer passes the type through; downstream and
+// liveResourceKeys go by Value == nil.
+func delType(r *rng) api.UpdateType {
+	return []api.UpdateType{api.UpdateTypeKVDeleted, api.UpdateTypeKVDeleted, api.UpdateTypeKVDeleted, api.UpdateTypeKVDeleted,
+		api.UpdateTypeKVNew, api.UpdateTypeKVUpdated, api.UpdateTypeKVUpdated, api.UpdateTypeKVUnknown}[r.intn(8)]
 }
 
 func randType(r *rng) api.UpdateType {
@@ -281,7 +294,7 @@ func genProtocol(r *rng, c *caseRun) {
 			k, v := mutate()
 			t := api.UpdateTypeKVUpdated
 			if v == 0 {
-				t = api.UpdateTypeKVDeleted
+				t = delType(r)
 			}
 			c.updates([]upd{{k, v, t}})
 			c.maybePull(r, pullPct)
@@ -305,7 +318,7 @@ func genRandom(r *rng, c *caseRun, boundary bool) {
 			for j := 0; j < 1+r.intn(4); j++ {
 				k := r.intn(numKeys)
 				if r.intn(10) < 3 {
-					us = append(us, upd{k, 0, api.UpdateTypeKVDeleted})
+					us = append(us, upd{k, 0, delType(r)})
 				} else {
 					us = append(us, upd{k, 1 + r.intn(numVals), randType(r)})
 				}
@@ -624,6 +637,10 @@ func (c *clientRun) srvUpdates(us []upd) {
 		} else {
 			cs = append(cs, fmt.Sprintf("DL %d %s", u.k, utName[u.t]))
 			hs = append(hs, fmt.Sprintf("del k%d", u.k))
+			if u.t != api.UpdateTypeKVDeleted {
+				c.valueless = true
+				hs[len(hs)-1] = fmt.Sprintf("k%d=nil(%s)", u.k, utName[u.t])
+			}
 		}
 		su, err := syncproto.SerializeUpdate(g)
 		if err != nil {
@@ -747,7 +764,7 @@ func genClient(r *rng) line {
 				k, v := mutate()
 				t := api.UpdateTypeKVUpdated
 				if v == 0 {
-					t = api.UpdateTypeKVDeleted
+					t = delType(r)
 				}
 				c.srvUpdates([]upd{{k, v, t}})
 				c.pullSome(pullPct)
@@ -778,6 +795,9 @@ func genClient(r *rng) line {
 	tags = append(tags, ctags...)
 	if c.synthDeletes {
 		tags = append(tags, "synthesized-deletes")
+	}
+	if c.valueless {
+		tags = append(tags, "valueless-update-typed-new/updated/unknown")
 	}
 	if c.convergedAfterRst {
 		tags = append(tags, "converged-after-restart")
@@ -827,6 +847,9 @@ func main() {
 		tags := []string{tag, fmt.Sprintf("restarts:%d", min(c.restarts, 3))}
 		if c.synthDeletes {
 			tags = append(tags, "synthesized-deletes")
+		}
+		if c.valueless {
+			tags = append(tags, "valueless-update-typed-new/updated/unknown")
 		}
 		if c.convergedAfterRst {
 			tags = append(tags, "converged-after-restart")
